@@ -82,7 +82,7 @@ def evaluate(chk, cases, tag='cases', shard=200):
 
 def forms(rng, x):
     p, i = G.key_of(x)
-    out = [['str', G.value_of(x)], ['tid', x], ['ident', x], ['oterm', x], ['cterm', x]]
+    out = [['str', G.value_of(x)], ['tid', x], ['ident', x], ['oterm', x], ['cterm', x], ['utid', x], ['uident', x]]
     if p and '_' not in p and ':' not in i and '_' not in i:
         out.append(['str', p + '_' + i])
     return out
@@ -119,6 +119,11 @@ def gen_case(rng, kind, wf):
         for x in [tid] + alts:
             queries.append(x)
     queries += [next(fresh) for _ in range(4)] + ['owl:Thing']
+    # absent ids that only a normalising id class would take for an id of the ontology
+    known = {G.key_of(x) for t in terms for x in [t[0]] + t[2]}
+    la = [y for x in (rng.sample(used, min(3, len(used))) if used else []) for y in G.lookalikes(G.value_of(x)) if G.key_of(y) not in known]
+    rng.shuffle(la)
+    queries += la[:5]
     calls = [['len'], ['terms'], ['term_ids']]
     for x in queries:
         fs = forms(rng, x)
